@@ -262,6 +262,12 @@ func (m *gwModel) event(i ssa.Instruction, e *explorer, st *pstate, fr *frame) (
 		return "tx.Fail", true, true
 	case strings.HasSuffix(n, ".Success") && strings.Contains(n, pkTrans):
 		return "tx.Success", true, true
+	case strings.HasSuffix(n, ".Proceed") && strings.Contains(n, pkTrans) && len(cc.Args) >= 3:
+		// records the new step: state and the type of the stored packet; the cell update itself
+		// is done here because the transactions package is not inlined
+		sv := e.eval(cc.Args[1], st, fr)
+		st.cells["f:transactions.RetryTransaction.State"] = sv
+		return "tx.Proceed(state=" + sv.String() + ",data=" + m.describePkt(cc.Args[2], e, st, fr) + ")", true, true
 	case n == "(*golang.org/x/sync/errgroup.Group).Go":
 		d := "?"
 		if len(cc.Args) > 1 {
@@ -279,6 +285,11 @@ func (m *gwModel) event(i ssa.Instruction, e *explorer, st *pstate, fr *frame) (
 		mn := cc.Method.Name()
 		if mn == "Fail" || mn == "Success" {
 			return "tx." + mn, true, true
+		}
+		if mn == "Proceed" && len(cc.Args) == 2 {
+			sv := e.eval(cc.Args[0], st, fr)
+			st.cells["f:transactions.RetryTransaction.State"] = sv
+			return "tx.Proceed(state=" + sv.String() + ",data=" + m.describePkt(cc.Args[1], e, st, fr) + ")", true, true
 		}
 	}
 	return "", false, false
@@ -304,7 +315,129 @@ func (m *gwModel) explorer() *explorer {
 		return fnPkgPath(g) == pkGateway
 	}
 	e.MaxDepth = 6
+	e.ResolveInvoke = func(cc *ssa.CallCommon, ex *explorer, st *pstate, fr *frame) *ssa.Function {
+		if f := m.c.uniqueImpl(cc); f != nil {
+			return f
+		}
+		// the receiver was asserted from a value whose dynamic type is a tracked cell
+		v := cc.Value
+		for d := 0; d < 4; d++ {
+			switch x := v.(type) {
+			case *ssa.Extract:
+				if ta, ok := x.Tuple.(*ssa.TypeAssert); ok {
+					v = ta.X
+					continue
+				}
+			case *ssa.TypeAssert:
+				v = x.X
+				continue
+			case *ssa.ChangeInterface:
+				v = x.X
+				continue
+			}
+			break
+		}
+		if cell, ok := m.cellOf(v, fr); ok && strings.HasPrefix(cell, "type:") {
+			if tv, have := st.cells[cell]; have && tv.known && tv.isStr {
+				return m.c.methodOfTypeName(tv.s, cc.Method.Name())
+			}
+		}
+		return nil
+	}
 	return e
+}
+
+// methodOfTypeName: declared method (through promotion) of "*gateway.T" / "*client.T".
+func (c *Ctx) methodOfTypeName(tname, method string) *ssa.Function {
+	name := strings.TrimPrefix(tname, "*")
+	dot := strings.Index(name, ".")
+	if dot < 0 {
+		return nil
+	}
+	p := c.ByPath[modPath+"/"+name[:dot]]
+	if p == nil {
+		return nil
+	}
+	obj := p.Types.Scope().Lookup(name[dot+1:])
+	if obj == nil {
+		return nil
+	}
+	pt := types.NewPointer(obj.Type())
+	sel := c.Prog.MethodSets.MethodSet(pt).Lookup(p.Types, method)
+	if sel == nil {
+		return nil
+	}
+	f := c.Prog.MethodValue(sel)
+	for f != nil && f.Synthetic != "" {
+		var inner *ssa.Function
+		allInstrs(f, func(i ssa.Instruction) {
+			if ci, ok := i.(ssa.CallInstruction); ok {
+				if g := staticCallee(ci.Common()); g != nil && g.Name() == method {
+					inner = g
+				}
+			}
+		})
+		f = inner
+	}
+	return f
+}
+
+// uniqueImpl: the single gateway/client method implementing an invoked
+// interface method (through embedding as well), or nil.
+func (c *Ctx) uniqueImpl(cc *ssa.CallCommon) *ssa.Function {
+	iface, ok := cc.Value.Type().Underlying().(*types.Interface)
+	if !ok {
+		return nil
+	}
+	n := namedOf(cc.Value.Type())
+	if n == nil || n.Obj().Pkg() == nil {
+		return nil
+	}
+	pp := n.Obj().Pkg().Path()
+	if pp != pkGateway && pp != pkClient {
+		return nil
+	}
+	var found *ssa.Function
+	cnt := 0
+	p := c.ByPath[pp]
+	scope := p.Types.Scope()
+	seen := map[*ssa.Function]bool{}
+	for _, name := range scope.Names() {
+		tn, ok := scope.Lookup(name).(*types.TypeName)
+		if !ok {
+			continue
+		}
+		pt := types.NewPointer(tn.Type())
+		if !types.Implements(pt, iface) {
+			continue
+		}
+		sel := c.Prog.MethodSets.MethodSet(pt).Lookup(p.Types, cc.Method.Name())
+		if sel == nil {
+			continue
+		}
+		f := c.Prog.MethodValue(sel)
+		// promoted method wrapper: resolve to the declared method
+		for f != nil && f.Synthetic != "" {
+			var inner *ssa.Function
+			allInstrs(f, func(i ssa.Instruction) {
+				if ci, ok := i.(ssa.CallInstruction); ok {
+					if g := staticCallee(ci.Common()); g != nil && g.Name() == cc.Method.Name() {
+						inner = g
+					}
+				}
+			})
+			f = inner
+		}
+		if f != nil && !seen[f] {
+			seen[f] = true
+			found = f
+			cnt++
+		}
+	}
+	if cnt == 1 {
+		return found
+	}
+	return nil
 }
 
 // run explores entry for the given cells.
